@@ -64,6 +64,7 @@ type Pipe struct {
 	Reads      int
 	Writes     int
 	SplitReads int // reads that returned fewer bytes than were available and fit
+	WriteErrors int // injected write errors that actually fired
 	dead       bool
 	Obs        Observer
 }
@@ -201,6 +202,7 @@ func (p *Pipe) Write(b []byte) (int, error) {
 		}
 		if p.WriteErrAfter >= 0 && idx >= p.WriteErrAfter {
 			simrt.Fault("transport.write-error")
+			p.WriteErrors++
 			return total, ErrInjected
 		}
 		n := len(b)
